@@ -49,6 +49,8 @@ type c22Stack struct {
 	shards []*sk.Shard
 	specs  []c22ShardSpec
 	mapper *coordinator.LocalShardMapper
+	// poisoned: a statement hung inside the engine; the stack is abandoned
+	poisoned bool
 }
 
 type c22Meta struct{ specs []c22ShardSpec }
@@ -140,6 +142,9 @@ func c22OpenStack(dir string, specs []c22ShardSpec) (*c22Stack, error) {
 }
 
 func (st *c22Stack) Close() {
+	if st.poisoned {
+		return
+	}
 	for _, s := range st.shards {
 		if s != nil && s.Sh != nil {
 			s.Close()
@@ -147,6 +152,15 @@ func (st *c22Stack) Close() {
 	}
 	os.RemoveAll(st.dir)
 }
+
+const c22QueryWatchdog = 60 * time.Second
+const c22MaxRows = 200000
+
+// c22WatchdogFired counts abandoned statements; minimisation stops and the check gives up
+// (inconclusive) after a few of them so that a hanging engine cannot stall the run.
+var c22WatchdogFired int
+
+var errC22Watchdog = fmt.Errorf("query watchdog (%s) fired", c22QueryWatchdog)
 
 // c22Cell is one output value: Kind 0 = null, 'i','u','f','s','b' typed.
 type c22Cell struct {
@@ -237,7 +251,33 @@ func c22CellOf(v interface{}) (c22Cell, error) {
 }
 
 // c22Run parses and executes one statement on the real stack and returns the emitted series.
+// The statement runs in its own goroutine: a loop inside the engine that cannot be interrupted
+// through the context is abandoned when the watchdog fires (the stack is then poisoned: no
+// further statements, no Close — the goroutine may hold engine locks).
 func (st *c22Stack) c22Run(q string) ([]c22OutSeries, error) {
+	if st.poisoned {
+		return nil, errC22Watchdog
+	}
+	type res struct {
+		out []c22OutSeries
+		err error
+	}
+	ch := make(chan res, 1)
+	go func() {
+		o, e := st.c22RunInline(q)
+		ch <- res{o, e}
+	}()
+	select {
+	case r := <-ch:
+		return r.out, r.err
+	case <-time.After(c22QueryWatchdog + 5*time.Second):
+		st.poisoned = true
+		c22WatchdogFired++
+		return nil, errC22Watchdog
+	}
+}
+
+func (st *c22Stack) c22RunInline(q string) ([]c22OutSeries, error) {
 	stmt, err := influxql.ParseStatement(q)
 	if err != nil {
 		return nil, fmt.Errorf("parse: %w", err)
@@ -246,21 +286,36 @@ func (st *c22Stack) c22Run(q string) ([]c22OutSeries, error) {
 	if !ok {
 		return nil, fmt.Errorf("not a select: %T", stmt)
 	}
-	ctx := context.Background()
+	// generous wall-clock watchdog (its firing is "inconclusive", never a verdict) and a
+	// deterministic cap on the result size (the reference never expects more than a few
+	// thousand rows; a runaway window loop is reported as an error instead of eating memory)
+	ctx, cancel := context.WithTimeout(context.Background(), c22QueryWatchdog)
+	defer cancel()
 	cur, err := query.Select(ctx, sel, st.mapper, query.SelectOptions{OrgID: c22Org})
 	if err != nil {
+		if ctx.Err() != nil {
+			return nil, errC22Watchdog
+		}
 		return nil, fmt.Errorf("select: %w", err)
 	}
 	em := query.NewEmitter(cur, 0)
 	defer em.Close()
 	var out []c22OutSeries
+	total := 0
 	for {
 		row, _, err := em.Emit()
+		if ctx.Err() != nil {
+			return nil, errC22Watchdog
+		}
 		if err != nil {
 			return nil, fmt.Errorf("emit: %w", err)
 		}
 		if row == nil {
 			break
+		}
+		total += len(row.Values)
+		if total > c22MaxRows {
+			return nil, fmt.Errorf("runaway result: more than %d rows", c22MaxRows)
 		}
 		if len(row.Columns) == 0 || row.Columns[0] != "time" {
 			return nil, fmt.Errorf("first column is not time: %v", row.Columns)
